@@ -321,11 +321,14 @@ Lemma peer_step_data tbl mtu up i p ev p' os q ep rcv ctr pk m :
   exists s, p_sess p' = Some s /\ ss_ridx s = rcv /\ ss_expired s = false /\
             p_ep p' = Some ep /\ ctr < ss_ctr s.
 Proof.
-  destruct ev as [pkts|pkts fq fk|mm|j ridx e|j ridx e|j e|rj re|j|j| |]; cbn [peer_step].
-  1-9: destruct up; cbn [negb]; [|intros H; inversion H; subst; intros []].
-  10: intros H; inversion H; subst; intros [].
-  10: destruct up; intros H; inversion H; subst; intros [].
-  7: intros H; inversion H; subst; intros [].
+  destruct ev as [pkts|pkts fq fk|mm|j ridx e|j ridx e|j e|sj se|rj re|j|j| |]; cbn [peer_step].
+  1-10: destruct up; cbn [negb]; [|intros H; inversion H; subst; intros []].
+  11: intros H; inversion H; subst; intros [].
+  11: destruct up; intros H; inversion H; subst; intros [].
+  8: intros H; inversion H; subst; intros [].
+  7: destruct (sj =? i);
+       [intros H Hin; destruct (send_staged_data _ _ _ _ _ _ _ _ _ _ _ H Hin) as (A & B & _ & C); auto
+       |intros H; inversion H; subst; intros []].
   - apply tun_step_data.
   - intros H Hin. apply peer_step_fault_inv in H.
     destruct H as (p1 & o1 & Ht & Eep & Esess & _ & _ & _ & _ & ->).
@@ -351,12 +354,15 @@ Lemma peer_step_sess tbl mtu up i p ev p' os s' :
   (exists s, p_sess p = Some s /\ ss_ridx s = ss_ridx s') \/
   (exists ep, ev = RefHs i (ss_ridx s') ep \/ ev = AnswerHs i (ss_ridx s') ep).
 Proof.
-  destruct ev as [pkts|pkts fq fk|mm|j ridx e|j ridx e|j e|rj re|j|j| |]; cbn [peer_step].
-  1-9: destruct up; cbn [negb];
+  destruct ev as [pkts|pkts fq fk|mm|j ridx e|j ridx e|j e|sj se|rj re|j|j| |]; cbn [peer_step].
+  1-10: destruct up; cbn [negb];
          [|intros H; inversion H; subst; intros Hs; left; exists s'; auto].
-  10: intros H; inversion H; subst; cbn [p_sess]; discriminate.
-  10: destruct up; intros H; inversion H; subst; cbn [p_sess]; intros Hs; left; exists s'; auto.
-  7: intros H; inversion H; subst; intros Hs; left; exists s'; auto.
+  11: intros H; inversion H; subst; cbn [p_sess]; discriminate.
+  11: destruct up; intros H; inversion H; subst; cbn [p_sess]; intros Hs; left; exists s'; auto.
+  8: intros H; inversion H; subst; intros Hs; left; exists s'; auto.
+  7: destruct (sj =? i);
+       [intros H Hs; left; exact (send_staged_sess _ _ _ _ _ _ H Hs)
+       |intros H; inversion H; subst; cbn [p_sess]; intros Hs; left; exists s'; auto].
   - intros H Hs. left. exact (tun_step_sess _ _ _ _ _ _ _ _ H Hs).
   - intros H Hs. apply peer_step_fault_inv in H.
     destruct H as (p1 & o1 & Ht & _ & Esess & _). rewrite Esess in Hs. left.
@@ -679,11 +685,14 @@ Lemma peer_step_count tbl mtu up i p ev p' os x :
   (cnt (flat_map data_of os) x + cnt (tag i (concat (p_staged p'))) x
    <= cnt (tag i (concat (p_staged p))) x + cnt (tag i (mine tbl i ev)) x)%nat.
 Proof.
-  destruct ev as [pkts|pkts fq fk|mm|j ridx e|j ridx e|j e|rj re|j|j| |]; cbn [peer_step].
-  1-9: destruct up; cbn [negb]; [|intros H; inversion H; subst; apply triv_count'].
-  10: intros H; inversion H; subst; cbn [p_staged]; apply flush_count.
-  10: destruct up; intros H; inversion H; subst; cbn [p_staged]; apply triv_count'.
-  7: intros H; inversion H; subst; apply triv_count'.
+  destruct ev as [pkts|pkts fq fk|mm|j ridx e|j ridx e|j e|sj se|rj re|j|j| |]; cbn [peer_step].
+  1-10: destruct up; cbn [negb]; [|intros H; inversion H; subst; apply triv_count'].
+  11: intros H; inversion H; subst; cbn [p_staged]; apply flush_count.
+  11: destruct up; intros H; inversion H; subst; cbn [p_staged]; apply triv_count'.
+  8: intros H; inversion H; subst; apply triv_count'.
+  7: destruct (sj =? i);
+       [intros H; apply (send_staged_count _ _ _ _ _ x) in H; cbn [p_staged] in H; lia
+       |intros H; inversion H; subst; cbn [p_staged]; apply triv_count'].
   3-8: cbn [mine].
   - apply tun_step_count.
   - intros H. apply peer_step_fault_inv in H.
@@ -729,7 +738,7 @@ Lemma mine_routed tbl i ev x :
   (cnt (tag i (mine tbl i ev)) x <= if N.eqb (fst x) i then cnt (routed_ev tbl ev) x else 0)%nat.
 Proof.
   destruct (N.eqb_spec (fst x) i) as [E|E]; [|rewrite tag_other by exact E; lia].
-  destruct ev as [pkts|pkts fq fk| | | | | | | | |];
+  destruct ev as [pkts|pkts fq fk| | | | | | | | | |];
     try (cbn [mine tag flat_map count_occ]; lia); apply mine_routed_pkts.
 Qed.
 
@@ -803,7 +812,7 @@ Proof.
   unfold routed in Hr. apply in_flat_map in Hr. destruct Hr as (ev & Hev & Hr).
   assert (Hb : exists pkts, (In (TunBatch pkts) evs \/ exists q k, In (TunBatchFault pkts q k) evs) /\
                            In (p, b :: l) (routed_ev (s_tbl st) (TunBatch pkts))).
-  { destruct ev as [pkts|pkts fq fk| | | | | | | | |]; cbn [routed_ev] in Hr; try (destruct Hr; fail);
+  { destruct ev as [pkts|pkts fq fk| | | | | | | | | |]; cbn [routed_ev] in Hr; try (destruct Hr; fail);
       exists pkts; (split; [|exact Hr]); [left; exact Hev|right; exists fq, fk; exact Hev]. }
   clear ev Hev Hr. destruct Hb as (pkts & Hev & Hr). cbn [routed_ev] in Hr.
   apply in_flat_map in Hr. destruct Hr as (y & Hy & Hr).
@@ -1052,3 +1061,17 @@ Proof.
   intros st p ep. unfold step. cbn [mtu_after]. rewrite step_peers_replay.
   destruct st; reflexivity.
 Qed.
+
+(* ------------------------------------------------------------- UAPI endpoint= *)
+
+(* the UAPI peer section ends with SendStagedPackets toward the new endpoint *)
+Theorem set_endpoint_then_flush : forall tbl mtu i p ep,
+  peer_step tbl mtu true i p (SetEp i ep) =
+  send_staged mtu i {| p_ep := Some ep; p_sess := p_sess p; p_hs_recent := p_hs_recent p;
+                       p_init_out := p_init_out p; p_staged := p_staged p |}.
+Proof. intros tbl mtu i p ep. cbn [peer_step negb]. rewrite N.eqb_refl. reflexivity. Qed.
+
+Theorem set_endpoint_keeps_table : forall st p ep,
+  s_tbl (fst (step st (SetEp p ep))) = s_tbl st /\
+  s_mtu (fst (step st (SetEp p ep))) = s_mtu st.
+Proof. intros st p ep. split; [apply step_tbl|rewrite step_mtu; reflexivity]. Qed.
